@@ -247,6 +247,16 @@ def run(R, tier):
             good = False
     R.check(good and kinds == {"single", "range", "dim-mismatch"}, "R19.5", "ChannelList::read_channel_range", "a | a:b; both ends read by read_channel_spec in text order; range only when both ends have the same dimension, otherwise -171", "channel range construction must take (first spec read, second spec read) and require equal dimensions: %s" % [CB.Path(r).describe() for r in res][:6], where=rb.span)
 
+    # ---- R19.11 whole-list value tables (sa/rules/listtable.py) ------------------------------------------------------------------------
+    # X::new(text) followed by next() until the end, folded on representative complete lists: the entries yielded - and
+    # where the first error falls - equal a reference reading of SCPI-99 8.3.2 / 8.3.3 (signs, exponents, ranges, `!`
+    # dimensions, path names, doubled / leading / missing separators, characters glued to a closing quote ...).
+    from . import listtable as LT
+    for kind, label in (("numeric", "NumericList"), ("channel", "ChannelList")):
+        rows = LT.table(kind)
+        bad = ["%r: yields %s, the text denotes %s" % (t, g, e) for t, g, e in rows if g != e]
+        R.check(rows and not bad, "R19.11", "entries:" + label, "entries and the position of the first error as denoted by the text (%d lists)" % len(rows), "; ".join(bad[:3]))
+
 
 def _pos_at_call(r, short):
     for e in r.trace:
